@@ -213,7 +213,12 @@ func (w *World) structOf(t types.Type) *structInfo {
 	w.structIDs[key] = name
 	w.structs[name] = si
 	for i := 0; i < st.NumFields(); i++ {
-		si.fields = append(si.fields, w.sortOf(st.Field(i).Type()))
+		if _, isArr := st.Field(i).Type().Underlying().(*types.Array); isArr {
+			// arrays embedded in structs live in a row of their own, referenced from the struct
+			si.fields = append(si.fields, SInt)
+		} else {
+			si.fields = append(si.fields, w.sortOf(st.Field(i).Type()))
+		}
 		fn := sanitize(st.Field(i).Name())
 		if fn == "_" {
 			fn = fmt.Sprintf("blank%d", i)
@@ -429,7 +434,11 @@ func (w *World) zeroOf(t types.Type) *Term {
 		si := w.structOf(t)
 		vals := make([]*Term, u.NumFields())
 		for i := range vals {
-			vals[i] = w.zeroOf(u.Field(i).Type())
+			if _, isArr := u.Field(i).Type().Underlying().(*types.Array); isArr {
+				vals[i] = w.ts.IntLit(0)
+			} else {
+				vals[i] = w.zeroOf(u.Field(i).Type())
+			}
 		}
 		return w.mkStruct(si, vals)
 	case *types.Array:
@@ -441,7 +450,13 @@ func (w *World) zeroOf(t types.Type) *Term {
 
 // ---- validity facts (memory-model axioms instantiated on a term)
 
+// lengths of values that exist are below 2^48 (amd64 user address space is 47
+// bits); a length handed to make must be below 2^56 (sums of a few existing
+// lengths are), anything larger is reported.
 const maxLenBits = 56
+const maxExistingLenBits = 48
+
+func (w *World) existingLenBound() *Term { return w.ts.BV(uint64(1)<<maxExistingLenBits, 64) }
 
 func (w *World) bvsle(a, b *Term) *Term { return w.ts.App("bvsle", SBool, a, b) }
 func (w *World) bvslt(a, b *Term) *Term { return w.ts.App("bvslt", SBool, a, b) }
@@ -461,7 +476,7 @@ func (w *World) validFacts(v *Term, t types.Type, alloc *Term, depth int) *Term 
 		return ts.And(w.intLe(ts.IntLit(0), v), w.intLe(v, alloc))
 	case *types.Basic:
 		if w.sortOf(t) == SStr {
-			return w.bvult(w.strLen(v), w.lenBound())
+			return w.bvult(w.strLen(v), w.existingLenBound())
 		}
 		if u.Kind() == types.UnsafePointer {
 			return ts.And(w.intLe(ts.IntLit(0), v), w.intLe(v, alloc))
@@ -470,7 +485,7 @@ func (w *World) validFacts(v *Term, t types.Type, alloc *Term, depth int) *Term 
 		arr, off, ln, cp := w.sArr(v), w.sOff(v), w.sLen(v), w.sCap(v)
 		return ts.And(
 			w.intLe(ts.IntLit(0), arr), w.intLe(arr, alloc),
-			w.bvult(off, w.lenBound()), w.bvule(ln, cp), w.bvult(cp, w.lenBound()),
+			w.bvult(off, w.existingLenBound()), w.bvule(ln, cp), w.bvult(cp, w.existingLenBound()),
 			ts.Implies(ts.Eq(arr, ts.IntLit(0)), ts.Eq(cp, ts.BV(0, 64))),
 		)
 	case *types.Struct:
@@ -480,6 +495,11 @@ func (w *World) validFacts(v *Term, t types.Type, alloc *Term, depth int) *Term 
 		si := w.structOf(t)
 		var fs []*Term
 		for i := 0; i < u.NumFields(); i++ {
+			if _, isArr := u.Field(i).Type().Underlying().(*types.Array); isArr {
+				f := w.field(si, v, i)
+				fs = append(fs, w.intLe(ts.IntLit(0), f), w.intLe(f, alloc))
+				continue
+			}
 			fs = append(fs, w.validFacts(w.field(si, v, i), u.Field(i).Type(), alloc, depth+1))
 		}
 		return ts.And(fs...)
